@@ -582,12 +582,19 @@ def render(doc, files, layout, params, directory, prologue=""):
         if not sites:
             break
         key, path = sites[p["site"] % len(sites)]
+        supplied = p["supplied"]
+        if p.get("helper") and p["site"] % 2 == 0:
+            # the helper with a user value that is falsy (0, false, 0.0): a value like any other
+            falsy = [(k, q) for k, q in sites if k == "track.json" and isinstance(q[-1], str) and (k, tuple(q)) not in used_sites and not _get(docs[k], q)]
+            if falsy:
+                key, path = falsy[(p["site"] // 2) % len(falsy)]
+                supplied = True
         if (key, tuple(path)) in used_sites:
             continue
         used_sites.add((key, tuple(path)))
         value = _get(docs[key], path)
         name = f"p{n}"
-        if p["supplied"]:
+        if supplied:
             user_params[name] = value
             default = _other(value)
         else:
